@@ -143,8 +143,8 @@ fn run_group(t: &mut Tape, ctx: &mut Ctx, cfg: u64, group: usize) -> CheckResult
             let inputs: Vec<u64> = (0..d.s.len()).map(|_| t.small_u64()).collect();
             ctx.set_dump(format!("config {cfg:#x}\nd = {} inputs {:?}", d.pretty(), inputs));
             let write_once = d.edges.iter().all(|e| e.label < 200);
-            let (v, _) = sv::op_eval(&d, &inputs, &super::c16::interp);
-            let ((a, _), used) = with_adv(cfg, || sa::op_eval(&d, &inputs, &super::c16::interp));
+            let (v, _) = sv::op_eval(&d, &inputs, &super::c16::interp_nc);
+            let ((a, _), used) = with_adv(cfg, || sa::op_eval(&d, &inputs, &super::c16::interp_nc));
             ctx.sub("eval-backend-independent");
             ensure!(ctx, v.is_some() == a.is_some(), "eval-backend-independent", "eval defined at VecKind = {} but at the second backend = {}", v.is_some(), a.is_some());
             if write_once {
